@@ -5,7 +5,8 @@ features, query) is run once alone and once - with equal constructor arguments, 
 interleaved with intruder bandits of other seeds and policy combinations (default-constructed policy tuples included)
 that are constructed, trained and queried at every step.  Generator draws are uninterpreted functions of (seed, call
 history), so any dependence on another object's state, on shared defaults or on the iteration order of string sets
-(the builtin `set` of the mabwiser modules iterates in a solver-chosen order: PYTHONHASHSEED) shows up as a different
+(the builtin `set` of the mabwiser modules iterates in a solver-chosen order and the builtin `hash` of anything
+containing a str returns an arbitrary integer: PYTHONHASHSEED) shows up as a different
 output term.
 """
 import numpy as np
@@ -51,7 +52,7 @@ def intrude(env, kind, k, seed, shared=None):
         raise ValueError(kind)
 
 
-def life(env, hp, arms, data, q, intruder, seed, iseed, ctxd, warm):
+def life(env, hp, arms, data, q, intruder, seed, iseed, ctxd, warm, add_only=False):
     outs = []
     k = [0]
 
@@ -70,7 +71,9 @@ def life(env, hp, arms, data, q, intruder, seed, iseed, ctxd, warm):
     outs.append(('pred1', ask(mab, 'predict', q)))
     intr()
     mab.partial_fit(*((np.asarray(d1), r1) + ((c1,) if ctxd else ())))
-    if warm:
+    if add_only:
+        mab.add_arm(arms_extra(arms))       # the new arm keeps whatever add_arm gave it (no warm start copies over it)
+    elif warm:
         mab.add_arm(arms_extra(arms))
         mab.warm_start({a: TIED[a] for a in mab.arms}, 1.0)
         outs.append(('cold', list(mab.cold_arms)))
@@ -85,7 +88,7 @@ def arms_extra(arms):
     return pool[len(arms)]
 
 
-def isolation(env, lp, npol, intruder, A=2, d=1, labels='str', twin=False):
+def isolation(env, lp, npol, intruder, A=2, d=1, labels='str', twin=False, add_only=False):
     arms = list(LABELS[labels][:A])
     ctxd = d if needs_contexts(lp, npol) else 0
     rk = reward_kind(lp)
@@ -97,8 +100,8 @@ def isolation(env, lp, npol, intruder, A=2, d=1, labels='str', twin=False):
     data = [gen_batch(env, 'f', arms, 2, rk, d=ctxd, fixed_n=2), gen_batch(env, 'p', arms, 1, rk, d=ctxd, fixed_n=1)]
     q = env.reals('q', (1, ctxd)) if ctxd else None
     warm = not npol
-    alone = life(env, hp, arms, data, q, None, seed, iseed, ctxd, warm)
-    crowded = life(env, hp, arms, data, q, intruder, seed, iseed, ctxd, warm)
+    alone = life(env, hp, arms, data, q, None, seed, iseed, ctxd, warm, add_only)
+    crowded = life(env, hp, arms, data, q, intruder, seed, iseed, ctxd, warm, add_only)
     for (t1, o1), (t2, o2) in zip(alone, crowded):
         if t1 == 'cold':
             env.ob('cold_arms', o1 == o2)
@@ -108,9 +111,15 @@ def isolation(env, lp, npol, intruder, A=2, d=1, labels='str', twin=False):
         env.ob('twin.false', False)
 
 
+def _conc_env(env):
+    install.install_set(stubs.make_nondet_set(env))
+    install.install_hash(stubs.make_nondet_hash(env))
+
+
 def _set_setup():
     return dict(tree_leaves=2, nondet_set_fn=lambda env: stubs.make_nondet_set(env),
-                conc_setup=lambda env: install.install_set(stubs.make_nondet_set(env)), no_tv=True)
+                sym_post=lambda env: install.install_hash(stubs.make_nondet_hash(env)),
+                conc_setup=_conc_env, no_tv=True)
 
 
 BOUNDS = {
@@ -120,8 +129,8 @@ BOUNDS = {
                   'nondeterministic)', arms=2, features=1),
     'thorough': dict(life='same', intruders='every kind for every combination', labels='str and int', arms='2-3'),
 }
-OUTSIDE = ['separate OS processes', 'the real PYTHONHASHSEED (modelled by nondeterministic set iteration order inside the '
-           'mabwiser modules)', 'BLAS / OpenMP threading', 'global numpy generator use is reported as a harness error']
+OUTSIDE = ['separate OS processes', 'the real PYTHONHASHSEED (modelled by nondeterministic set iteration order and nondeterministic hash() of str-'
+           'containing objects inside the mabwiser modules)', 'BLAS / OpenMP threading', 'global numpy generator use is reported as a harness error']
 ASSUMPTIONS = ['numpy Generator = uninterpreted function of (seed, call history)', 'KMeans / trees = uninterpreted functions '
                'of (random_state, training data, row)', 'single interpreter']
 
@@ -151,6 +160,12 @@ def scenarios(tier):
             out.append(Scenario('%s.%s.vs.tree.int' % (lp, npol or 'none'), isolation,
                                 dict(lp=lp, npol=npol, intruder='tree', labels='int', A=3), setup=_set_setup(), weight=30,
                                 shards=2, max_paths=60000))
+    for lp, npol in [('lints', None), ('linucb', None), ('thompson', None), ('softmax', None)] + \
+            ([] if q else [('lingreedy', None), ('lints', 'radius:cityblock'), ('ucb1', 'lsh:1:1'), ('thompson', 'clusters:2')]):
+        out.append(Scenario('%s.%s.vs.sibling.add_arm_only' % (lp, npol or 'none'), isolation,
+                            dict(lp=lp, npol=npol, intruder='sibling', add_only=True), setup=_set_setup(), weight=30,
+                            shards=2, max_paths=60000,
+                            bounds=dict(lp=lp, np=npol, intruder='sibling', labels='str', life='... add_arm (no warm start), query')))
     out.append(Scenario('twin.ucb1', isolation, dict(lp='ucb1', npol=None, intruder='tree', twin=True), setup=_set_setup(),
                         twin=True))
     return out
